@@ -51,6 +51,15 @@ def check_state(im, bad, j, op):
             pass
         except Exception as e:
             bad.append(('lookup of unused id %r raises %r' % (c, e), {'op_index': j}))
+    # the resource a variable's annotations hang on is the one named by its CURRENT id (none without an id)
+    for k, v in enumerate(im.objs):
+        if not im.live[k]:
+            continue
+        ident = getattr(v, 'rdf_identity', None)
+        want_ident = None if v.cmeta_id is None else '#' + v.cmeta_id
+        if (None if ident is None else str(ident)) != want_ident:
+            bad.append(('variable %s has cmeta id %r but its annotations are looked up under %r (rdf_identity)'
+                        % (v.name, v.cmeta_id, None if ident is None else str(ident)), {'op_index': j}))
     # RDF look-ups: exactly the live carriers of the subjects, in order_added order
     from cellmlmanip.rdf import create_rdf_node
     for p in range(2):
